@@ -7,22 +7,27 @@
 (*    written      the regions <<argument, "len"|"spare">> in which at least *)
 (*                 one byte differs from the snapshot taken before the call  *)
 (*    outside      a guard byte between/around the arguments changed         *)
+(*  with keep, chain, conc ("results stay the caller's"): written also lists *)
+(*  <<"result", "len"|"spare">> when a slice returned by an earlier call of   *)
+(*  the run no longer equals the snapshot taken when it was returned.         *)
 (* A run is a single event: the verdict is a function of the observation.    *)
 EXTENDS MemDispatch
 
 Bad(why) == [bad |-> TRUE, why |-> why]
 IsBad(c) == c.bad
-Range(s) == {s[k] : k \in 1..Len(s)}
+SeqRange(s) == {s[k] : k \in 1..Len(s)}
 
-CfOf(e) == Cf(e.fn, e.alg, e.len, e.path, e.sv)
+CfOf(e) ==
+  IF "keep" \in DOMAIN e THEN Cf(e.fn, e.alg, e.len, e.path, e.sv) @@ [keep |-> e.keep, chain |-> e.chain, conc |-> e.conc]
+  ELSE Cf(e.fn, e.alg, e.len, e.path, e.sv)
 
 CReset(e) ==
   LET cf == CfOf(e)
-      w == Range(e.written)
+      w == SeqRange(e.written)
       illegal == w \ MayWrite(cf)
   IN IF e.args # MemArgs(e.fn) \/ e.spares # SpareVec(e.sv, Len(MemArgs(e.fn)))
      THEN Bad("harness: argument layout mismatch")
-     ELSE IF ~(w \subseteq Regions(e.fn)) THEN Bad("harness: unknown region")
+     ELSE IF ~(w \subseteq CallerMemory(e.fn)) THEN Bad("harness: unknown region")
      ELSE IF e.outside THEN Bad("outside")
      ELSE IF illegal # {} THEN
           LET x == CHOOSE y \in illegal : TRUE IN Bad(x[1] \o "." \o x[2])
